@@ -258,28 +258,13 @@ func checkSpec(ctx *Ctx, id string) {
 				devReqs = append(devReqs, "VC "+name+" "+hx(p.Strs[pq.i])+" "+hx(p.Strs[pq.j]))
 			}
 		}
-		// A deviation from the reference is covered by a recorded finding only where the verified
-		// model — the code as it was when the finding was recorded, for which the deviation class is
-		// characterised and the theorem proved on its complement — deviates in the same way.  A pair
-		// on which the model agrees with the reference but the implementation does not is new.
-		modelAns := make([]string, len(devReqs))
-		if ctx.MEcos[name] && len(devReqs) > 0 {
-			if ma, err := ctx.Pool.Map(devReqs); err == nil {
-				modelAns = ma
-			}
-		}
-		for k, v := range devs {
-			in := v.Input.([]string)
-			if f := findingFor(id, name, v.Kind, "", in); f != "" && (modelAns[k] == "" || modelAns[k] == v.Actual) {
-				v.Finding = f
-			} else if f != "" {
-				v.Kind = "reference-order/new-inside-finding-class"
-				v.Expected += "; the verified model also answers " + strings.Fields(v.Expected)[0] + " here, so this deviation is not the recorded one"
-			}
-			res.violate(v)
-		}
+		classifyDevs(ctx, id, name, devs, devReqs)
+		// long runs: one digit run / one letter run stretched to the lengths where fixed-size
+		// buffers and narrow length fields end (64, 256, 1024), each against the same run one
+		// byte shorter, one longer, and with a different last byte, and against two short texts
+		nLong := longRunStream(ctx, id, name, e, sp.Rule)
 		res.DistinctNontrivial += strict
-		dist[name] = map[string]int{"pool": len(p.Strs), "reference_valid": len(idx), "pairs": len(pairs), "strictly_ordered_pairs": strict}
+		dist[name] = map[string]int{"pool": len(p.Strs), "reference_valid": len(idx), "pairs": len(pairs), "strictly_ordered_pairs": strict, "long_run_pairs": nLong}
 		if len(idx) >= 2 {
 			res.sample(map[string]any{"eco": name, "a": p.Strs[idx[0]], "b": p.Strs[idx[1]], "impl": cmpS(e, p.Vals[idx[0]], p.Vals[idx[1]])})
 		}
@@ -288,4 +273,140 @@ func checkSpec(ctx *Ctx, id string) {
 		}
 	}
 	res.Distribution["per_ecosystem"] = dist
+}
+
+// longRunStream: see the call site.  Texts are built on the ecosystem's numeric shape; those the
+// ecosystem or the reference rejects are skipped.
+func longRunStream(ctx *Ctx, id, name string, e *Eco, rule string) int {
+	res := ctx.Res
+	sh := numShapes[name]
+	if sh == nil {
+		return 0
+	}
+	ar := sh.Arities[0]
+	for _, a := range sh.Arities {
+		if a == 3 {
+			ar = 3
+		}
+	}
+	mk := func(last string) string {
+		parts := make([]string, ar)
+		for i := range parts {
+			parts[i] = "1"
+		}
+		parts[ar-1] = last
+		return sh.Prefix + strings.Join(parts, ".")
+	}
+	var groups [][]string
+	for _, L := range []int{64, 256, 1024} {
+		for _, kind := range []string{"digits", "letters-plus", "letters-dash", "letters-glued", "tildes"} {
+			var fam []string
+			rep := func(c string, k int) string { return strings.Repeat(c, k) }
+			switch kind {
+			case "digits":
+				fam = []string{mk(rep("1", L-1)), mk(rep("1", L)), mk(rep("1", L+1)), mk(rep("1", L-1) + "2"), mk("5"), mk("1")}
+			case "letters-plus":
+				b := mk("0") + "+"
+				fam = []string{b + rep("a", L-1), b + rep("a", L), b + rep("a", L+1), b + rep("a", L) + "b", b + rep("a", L) + "c", mk("0"), b + "b"}
+			case "letters-dash":
+				b := mk("0") + "-"
+				fam = []string{b + rep("a", L-1), b + rep("a", L), b + rep("a", L+1), b + rep("a", L) + "b", b + rep("a", L) + "c", mk("0"), b + "b"}
+			case "letters-glued":
+				b := mk("0")
+				fam = []string{b + rep("a", L-1), b + rep("a", L), b + rep("a", L+1), b + rep("a", L) + "b", b + rep("a", L) + "c", mk("0")}
+			case "tildes":
+				b := mk("0")
+				fam = []string{b + rep("~", L-1), b + rep("~", L), b + rep("~", L+1), b + rep("~", L) + "a", mk("0")}
+			}
+			groups = append(groups, fam)
+		}
+	}
+	n := 0
+	var devs []Violation
+	var devReqs []string
+	defer func() { classifyDevs(ctx, id, name, devs, devReqs) }()
+	for _, fam := range groups {
+		var strs []string
+		var vals []any
+		var reqs []string
+		for _, s := range fam {
+			if pr := e.Parse(s); pr.OK && specScope(id, name, s) {
+				strs = append(strs, s)
+				vals = append(vals, pr.Val)
+				reqs = append(reqs, "SV "+name+" "+hx(s))
+			}
+		}
+		if len(strs) < 2 {
+			continue
+		}
+		ans, err := ctx.Pool.Map(reqs)
+		if err != nil {
+			return n
+		}
+		var ks []int
+		for k, a := range ans {
+			if a == "1" {
+				ks = append(ks, k)
+			}
+		}
+		reqs = reqs[:0]
+		type ij struct{ i, j int }
+		var pairs []ij
+		for _, i := range ks {
+			for _, j := range ks {
+				if i != j {
+					reqs = append(reqs, "SP "+name+" "+hx(strs[i])+" "+hx(strs[j]))
+					pairs = append(pairs, ij{i, j})
+				}
+			}
+		}
+		ans, err = ctx.Pool.Map(reqs)
+		if err != nil {
+			return n
+		}
+		for k, a := range ans {
+			if a == "x" {
+				continue
+			}
+			pq := pairs[k]
+			got := cmpS(e, vals[pq.i], vals[pq.j])
+			res.Evaluations++
+			n++
+			if fmt.Sprint(got) != a {
+				short := func(s string) string {
+					if len(s) > 80 {
+						return fmt.Sprintf("%s...(%d bytes)...%s", s[:24], len(s), s[len(s)-8:])
+					}
+					return s
+				}
+				devs = append(devs, Violation{Eco: name, Kind: "reference-order/long-run", Input: []string{strs[pq.i], strs[pq.j]}, Expected: a + " (" + rule + ") for " + short(strs[pq.i]) + " vs " + short(strs[pq.j]), Actual: fmt.Sprint(got)})
+				devReqs = append(devReqs, "VC "+name+" "+hx(strs[pq.i])+" "+hx(strs[pq.j]))
+			}
+		}
+	}
+	return n
+}
+
+// classifyDevs: a deviation from the reference is covered by a recorded finding only where the
+// verified model — the code as it was when the finding was recorded, for which the deviation
+// class is characterised and the theorem proved on its complement — deviates in the same way.  A
+// pair on which the model agrees with the reference but the implementation does not is new.
+func classifyDevs(ctx *Ctx, id, name string, devs []Violation, devReqs []string) {
+	res := ctx.Res
+	modelAns := make([]string, len(devReqs))
+	if ctx.MEcos[name] && len(devReqs) > 0 {
+		if ma, err := ctx.Pool.Map(devReqs); err == nil {
+			modelAns = ma
+		}
+	}
+	for k, v := range devs {
+		in := v.Input.([]string)
+		if f := findingFor(id, name, "reference-order", "", in); f != "" && (modelAns[k] == "" || modelAns[k] == v.Actual) {
+			v.Finding = f
+		} else if f != "" {
+			v.Kind += "/new-inside-finding-class"
+			v.Expected += "; the verified model also answers " + strings.Fields(v.Expected)[0] + " here, so this deviation is not the recorded one"
+		}
+		res.violate(v)
+	}
 }
